@@ -167,17 +167,48 @@ def tok(b):
 
 
 def snapshot(top):
+    """{relative path: None for a directory | content token for a regular file | "@link:<target>" for a symbolic link
+    (never followed: links are opaque leaves; the generators put them only under non-reserved names)}"""
     out = {}
     for r, ds, fs in os.walk(top):
-        for d in ds:
-            out[os.path.relpath(os.path.join(r, d), top)] = None
+        for d in list(ds):
+            p = os.path.join(r, d)
+            if os.path.islink(p):
+                out[os.path.relpath(p, top)] = "@link:" + os.readlink(p)
+            else:
+                out[os.path.relpath(p, top)] = None
         for f in fs:
             p = os.path.join(r, f)
+            if os.path.islink(p):
+                out[os.path.relpath(p, top)] = "@link:" + os.readlink(p)
+                continue
             try:
                 out[os.path.relpath(p, top)] = tok(open(p, "rb").read())
             except OSError:
                 out[os.path.relpath(p, top)] = "<unreadable>"
     return out
+
+
+def metadata(top, prefix=""):
+    """lstat facts of everything that is not a directory: (mode, mtime_ns, inode, size). A foreign file whose bytes
+    are the same but which was re-created, truncated and rewritten, chmod-ed or touched shows up here."""
+    out = {}
+    for r, ds, fs in os.walk(top):
+        for n in [d for d in ds if os.path.islink(os.path.join(r, d))] + fs:
+            p = os.path.join(r, n)
+            try:
+                st = os.lstat(p)
+                out[prefix + os.path.relpath(p, top)] = (st.st_mode, st.st_mtime_ns, st.st_ino, st.st_size)
+            except OSError:
+                pass
+    return out
+
+
+def metadata_all(world, other_tmp):
+    m = metadata(world)
+    if other_tmp:
+        m.update(metadata(other_tmp, OTHER + "/"))
+    return m
 
 
 def diff(before, after):
@@ -487,6 +518,12 @@ def execute_in(sb, sc, other_tmp=None):
             os.makedirs(os.path.dirname(p), exist_ok=True)
             with open(p, "w", encoding="utf-8") as f:
                 f.write(sub(world, text))
+        for rel, target in sc.get("links", {}).items():
+            p = os.path.join(world, rel)
+            os.makedirs(os.path.dirname(p), exist_ok=True)
+            os.symlink(target, p)
+        for rel, mode in sc.get("modes", {}).items():
+            os.chmod(os.path.join(world, rel), int(mode, 8))
     except OSError as e:
         raise ScenarioError(str(e))
     variant = None
@@ -553,6 +590,7 @@ def execute_in(sb, sc, other_tmp=None):
             return res
         pre = analysis(eff) if entry != "init" else None
         before = snapshot_all(world, other_tmp)
+        before_meta = metadata_all(world, other_tmp)
         if entry == "build":
             status, output = run_proc([vlib.harness_bin("c16"), "build1"], cwd_abs, env)
         elif entry == "api":
@@ -560,8 +598,12 @@ def execute_in(sb, sc, other_tmp=None):
         else:
             status, output = run_proc([vlib.REPO_BIN, "tauri-typegen"] + cli_args(world, entry, a), cwd_abs, env)
         after = snapshot_all(world, other_tmp)
+        after_meta = metadata_all(world, other_tmp)
         st = {"entry": entry, "before": before, "after": after, "diff": diff(before, after), "status": status,
               "output": output, "detected": detected}
+        # same bytes, different lstat facts: the file was touched (re-created, rewritten, chmod-ed)
+        st["diff"]["meta_changed"] = sorted(q for q in before_meta if q in after_meta and before.get(q) == after.get(q)
+                                            and before_meta[q] != after_meta[q])
         if entry == "init":
             proj, gen, lib, tgt, parses = init_info
             st["tgt"] = tgt
@@ -976,6 +1018,62 @@ def content_scenarios(rng=None, count=0):
                     {"entry": e, "variant": r.choice(["cmds", "events", "nocmds"]), "args": args}]        # edit again
             scs.append({"name": "content-%s-%d" % (e, k), "cwd": "app", "proj_dir": "app/src-tauri", "dirs": [], "files": files,
                         "runs": runs, "tmpdir": "same"})
+    return scs
+
+
+# ---- foreign files carrying the names of the tool's transient / probe / auxiliary artefacts, in every shape
+# every name the code creates transiently or beside its outputs: the write probe (output_manager.rs:52), the
+# <name>.tmp of OutputManager::write_file (with_extension), <name>.backup.<ts> of with_backup; plus the usual
+# neighbours a later change might introduce (append-style .tmp, lock files, editor leftovers)
+ARTEFACT_NAMES = [".write_test", ".write_test.tmp", ".write_test~", "write_test", "types.tmp", "types.ts.tmp", "commands.tmp",
+                  "commands.ts.tmp", "index.tmp", "events.tmp", ".typecache.tmp", ".tmp", "dependency-graph.tmp",
+                  "dependency-graph.txt.tmp", ".typecache.lock", ".lock", "types.ts.lock", "index.ts.swp", ".types.ts.swp",
+                  "types.ts.backup.1700000000", ".typecache.backup.1", "types.ts.part", ".#types.ts"]
+SHAPES = ["empty", "nonempty", "dir", "link-file", "link-dir", "dangling", "readonly-empty", "readonly-nonempty"]
+
+
+def put_artefact(sc, rel, shape, i):
+    if shape in ("empty", "readonly-empty"):
+        sc["files"][rel] = ""
+    elif shape in ("nonempty", "readonly-nonempty"):
+        sc["files"][rel] = "user marker %d" % i
+    elif shape == "dir":
+        sc["files"][rel + "/keep.txt"] = "kept"
+    elif shape == "link-file":
+        sc["links"][rel] = os.path.relpath("app/keep.ts", os.path.dirname(rel))
+    elif shape == "link-dir":
+        sc["links"][rel] = os.path.relpath("app/keepdir", os.path.dirname(rel))
+    else:
+        sc["links"][rel] = "nowhere/at-all"
+    if shape.startswith("readonly"):
+        sc["modes"][rel] = "444"
+
+
+def artefact_scenarios(rng=None, count=0):
+    """rng=None: one scenario per shape x entry with every artefact name in that shape, in the output directory, below
+    it and beside it; histories generate / edit+regenerate / cache hit / no commands. With rng: shapes mixed per name."""
+    scs = []
+    conf = tauri_conf("./src-tauri", "./gen", "none", True)
+    combos = [(sh, e) for sh in SHAPES for e in ("build", "generate", "api", "init")]
+    for k in range(len(combos) if not rng else count):
+        r = rng or __import__("random").Random(500 + k)
+        shape0, e = combos[k] if not rng else (None, r.choice(["build", "build", "generate", "api", "init"]))
+        sc = {"name": "artefacts-%s-%s" % (shape0 or ("mixed%d" % k), e), "cwd": "app", "proj_dir": "app/src-tauri", "dirs": [],
+              "files": {"app/tauri.conf.json": conf, "app/keep.ts": "user", "app/keepdir/x.ts": "user", "app/gen/notes.ts": "user"},
+              "links": {}, "modes": {}, "tmpdir": r.choice(["same", "same", "other"])}
+        for i, n in enumerate(ARTEFACT_NAMES):
+            put_artefact(sc, "app/gen/" + n, shape0 or r.choice(SHAPES), i)
+            if i % 3 == 0:
+                put_artefact(sc, "app/gen/sub/" + n, shape0 or r.choice(SHAPES), i)
+            if i % 4 == 0:
+                put_artefact(sc, "app/" + n, shape0 or r.choice(SHAPES), i)
+        args = {"build": {}, "generate": {"p": "./src-tauri", "o": "./gen", "viz": True},
+                "api": {"p": "./src-tauri", "o": "./gen", "v": "none"},
+                "init": {"p": "./src-tauri", "g": "./gen", "v": "none", "o": "./tauri.conf.json", "viz": True}}[e]
+        sc["runs"] = [{"entry": e, "variant": "cmds", "args": args}, {"entry": e, "variant": "cmds2", "args": args},
+                      {"entry": e, "variant": None, "args": args}, {"entry": e, "variant": "nocmds", "args": args},
+                      {"entry": "build", "variant": "events", "args": {}}]
+        scs.append(sc)
     return scs
 
 
